@@ -18,4 +18,17 @@ def c16Op (args : List String) : String :=
     | some at_ => s!"resp={r.responses} cut={(at_ + bucket / 2) / bucket}"
   | _ => "bad-op"
 
+/-- `c16w <T> <scenario>`: the write side. `stalled`: the client reads nothing for 3T after asking for
+    far more than the socket buffers hold; `steady`: it drains a response that takes about 3T. -/
+def c16wOp (args : List String) : String :=
+  match args with
+  | [t, "stalled"] =>
+    let T := parseNat t
+    if (writeOut T [0, 0, 0, 3 * T]).2 then "cut=yes handles=released" else "cut=no handles=held"
+  | [t, "steady"] =>
+    let T := parseNat t
+    let r := writeOut T (List.replicate 64 (T / 20))
+    if r.2 then "served=short" else "served=full"
+  | _ => "bad-op"
+
 end Driver
